@@ -42,6 +42,7 @@ pub fn front_end(src: &str) -> Result<Obs, String> {
             executed: Vec::new(),
             skipped: Vec::new(),
             unreachable: Vec::new(),
+            work_done: 0,
         };
         let lexer = Lexer::new(src, &arena);
         let mut parser = Parser::new(lexer, &arena);
